@@ -391,7 +391,7 @@ func (p *c16) checkErrors(r *core.CaseResult) {
 
 func (p *c16) Meta() core.Meta {
 	return core.Meta{
-		Rule: "string arguments: for each of 6 templates (echo, WHERE =, WHERE = AND, IN list with 2 placeholders, two select items, function arguments) every string of length 1..3 (thorough 4) over the 17-character alphabet {a ' \\ \" ` - # / * ; space NUL newline % $ 1 é} plus classic injection payloads: sanitized text must parse, have the template's statement shape with one string literal per placeholder whose value is the argument, and return through Exec exactly the rows a literal comparison selects; int64/float64/bool/NULL boundary values echo; 8 quoted contexts ($1 inside '...', '...''...', '...\\'...', \"...\", `...`, --, #, /* */) leave the quoted $1 alone; missing / unused / $0 / overflow / unsupported-type arguments are errors, not panics. non-trivial = the argument contains a character that is special in the dialect",
+		Rule:        "string arguments: for each of 6 templates (echo, WHERE =, WHERE = AND, IN list with 2 placeholders, two select items, function arguments) every string of length 1..3 (thorough 4) over the 17-character alphabet {a ' \\ \" ` - # / * ; space NUL newline % $ 1 é} plus classic injection payloads: sanitized text must parse, have the template's statement shape with one string literal per placeholder whose value is the argument, and return through Exec exactly the rows a literal comparison selects; int64/float64/bool/NULL boundary values echo; 8 quoted contexts ($1 inside '...', '...''...', '...\\'...', \"...\", `...`, --, #, /* */) leave the quoted $1 alone; missing / unused / $0 / overflow / unsupported-type arguments are errors, not panics. non-trivial = the argument contains a character that is special in the dialect",
 		Assumptions: []string{"the dialect is the one genql.Parse accepts (MySQL: backslash escapes in string literals, backtick identifiers, double-quoted strings, # and -- comments)", "statement shape = sqlparser.String of the statement with every literal masked"},
 		Bounds:      map[string]any{"alphabet": len(p.alpha), "max_len": p.maxLen, "templates": len(c16Templates), "quoted_contexts": len(c16Quoted)},
 		Exhaustive:  true,
